@@ -3,7 +3,7 @@ no binding of it was executed raises UnboundLocalError -- which is neither Value
 import ast
 
 from .index import norm
-from .callgraph import CallGraph, local_names
+from .callgraph import CallGraph, local_names, norm_locals
 
 ALL = None     # marker: "control does not get here"
 
@@ -357,9 +357,9 @@ def rule_definite_assignment(check, rule, roots, what):
 # constant-index access on a sequence that may be empty
 
 REVIEWED_INDEX = {
-    ('_autoforwards:autoforwards_hint', 'h'): 'the hint protocol: a triple (function, ast, signature) or None, and None is tested first',
-    ('_signatures:_Merger._add_starargs', 'which'): 'two-element list built by every caller (one flag per side)',
-    ('_util:get_ast', 'module.body'): 'the parsed source of a function object: at least its def statement',
+    # (locals are written `$`: the keys survive a renaming)
+    ('_autoforwards:autoforwards_hint', '$'): 'the hint protocol: a triple (function, ast, signature) or None, and None is tested first',
+    ('_util:get_ast', '$.body'): 'the parsed source of a function object: at least its def statement',
 }
 
 
@@ -444,12 +444,13 @@ def rule_index_guarded(check, rule, keys, what):
             n += 1
             check.analysed(fi)
             bt = norm(base)
-            key = 'index|%s|%s' % (fi.key, bt)
+            key = 'index|%s|%s' % (fi.key, norm_locals(fi.node, base, method=fi.cls is not None))
             st = '%s %s' % (fi.loc(x), fi.key)
             if _nonempty_dominates(fi, x, bt):
                 check.holds(rule, st, '%s is taken under a test that %s is not empty' % (norm(x)[:40], bt), key=key)
-            elif (fi.key, bt) in REVIEWED_INDEX:
-                check.holds(rule, st, '%s: reviewed (%s)' % (norm(x)[:40], REVIEWED_INDEX[(fi.key, bt)]), key=key)
+            elif (fi.key, norm_locals(fi.node, base, method=fi.cls is not None)) in REVIEWED_INDEX:
+                check.holds(rule, st, '%s: reviewed (%s)' % (norm(x)[:40], REVIEWED_INDEX[(fi.key, norm_locals(fi.node, base, method=fi.cls is not None))]),
+                            key=key)
             else:
                 check.violation(rule, st, '%s is taken although nothing on the way establishes that %s is not empty: IndexError %s'
                                 % (norm(x)[:40], bt, what), key=key, witness='the input for which %s is empty' % bt)
